@@ -2,6 +2,7 @@ SPECIFICATION FairSpec
 CONSTANTS
   Progs <- QuickProgs
   MaxV = 3
+  CopyThrows = {0}
   CopyUnderMutex = TRUE
   CancelUnlocks = TRUE
 VIEW View
